@@ -37,6 +37,7 @@ def run(ck, fb):
     r09h(ck, fb)
     r09i(ck, fb)
     r09j(ck, fb)
+    r09k(ck, fb)
 
 
 PAIR_EXCEPTIONS = {
@@ -178,6 +179,30 @@ def r09c(ck, fb):
     for s in uv:
         vg = cfg.guard_atoms(sc, s.bb)
         ck.require(any(a[0] == 'variant' and a[2] == 'Some' for a in vg), 'R09c', 'set_config:update-existing', s.where(), 'update_value is not on the existing-key branch')
+    # ... and it is the ONLY way around update_value for a key that exists: from the Some edge of the lookup every path to the return passes
+    # update_value or leaves through the md5-equality edge of the unchanged-content test. Any other shortcut (same history id seen before, same
+    # time stamp, ...) drops an acknowledged publish that differs in content
+    look = util.mut_calls_on_field(sc, 'cache', r'HashMap::<K, V, S, A>::(get_mut|get)$')
+    some_edges = util.option_edges(sc, look, 'Some')
+    esc = set()
+    for (s0, d0, lab0, t0) in cfg.switch_edges(sc):
+        d = cfg.describe_operand(sc, t0['discr'])
+        if d['k'] == 'call' and re.search(r'::eq$', cfg.callee_name(d['term']) or ''):
+            srcs = [cfg.strip_calls(sc, cfg.describe_operand(sc, x)) for x in d['term']['args']]
+            if any(x['k'] == 'place' and x['fields'][-1:] == ['md5'] for x in srcs) and cfg.edge_polarity(t0, lab0) is True:
+                esc.add((s0, d0, lab0))
+        if d['k'] == 'call' and re.search(r'::ne$', cfg.callee_name(d['term']) or ''):
+            srcs = [cfg.strip_calls(sc, cfg.describe_operand(sc, x)) for x in d['term']['args']]
+            if any(x['k'] == 'place' and x['fields'][-1:] == ['md5'] for x in srcs) and cfg.edge_polarity(t0, lab0) is False:
+                esc.add((s0, d0, lab0))
+    leaks = []
+    for (s0, d0, lab0) in some_edges:
+        free = cfg.reach_from(sc, [d0], blocked_blocks={s.bb for s in uv}, blocked_edges=esc)
+        leaks += [r for r in sc.return_blocks() if r in free]
+    ck.require(bool(some_edges) and bool(uv) and not leaks, 'R09c', 'set_config:only-unchanged-content-skips-the-update', sc.where(leaks[0]) if leaks else sc.where(),
+               'for a key that exists set_config can return without update_value on a path that is not the "same md5" return: a publish with different '
+               'content is acknowledged and dropped (e.g. when two leaders drew the same history id around an election)',
+               'the md5-equality return is the only way around update_value')
 
 
 def r09d(ck, fb):
@@ -508,3 +533,23 @@ def r09j(ck, fb):
                     'tenant\'s total; every stored key then appears exactly once across the pages')
     paging_offset_rule(ck, fb, 'R09j', 'rnacos::config::config_index::TenantIndex::query_config_page',
                        r'config_index::ConfigIndex::query_config_page$', r'ConfigQueryParam', 'config-listing')
+
+
+def r09k(ck, fb, R='R09k'):
+    ck.rule(R, 'removing a key from the listing index removes that key and nothing else: in ConfigIndex::remove_config the group entry is dropped only '
+               'after the dataId was really taken out of it (the HashSet::remove answer is true) and the set is empty. Dropping the group "because it '
+               'holds one entry" takes a stored config out of listings and searches when a remove names another, unknown dataId of that group '
+               '(the remove is accepted and applied through the log without an existence check)')
+    b = ck.body('rnacos::config::config_index::ConfigIndex::remove_config', R)
+    if not b:
+        return
+    drops = util.mut_calls_on_field(b, 'group_data', r'(HashMap::<K, V, S, A>|BTreeMap::<K, V, A>)::remove$')
+    ck.floor(R, 'group_data.remove in ConfigIndex::remove_config', len(drops), 1)
+    for s0 in drops:
+        atoms = cfg.guard_atoms(b, s0.bb)
+        removed = any(a[0] == 'call' and re.search(r'(HashSet|BTreeSet)::<.*>::remove$', a[1] or '') and a[2] is True for a in atoms)
+        empty = any(a[0] == 'call' and (a[1] or '').endswith('is_empty') and a[2] is True for a in atoms) or \
+            any(a[0] == 'cmp' and 'len' in cfg.fmt_atom(a) for a in atoms)
+        ck.require(removed and empty, R, 'remove_config:group-dropped-only-when-emptied-by-this-key', s0.where(),
+                   'the group entry is dropped without the dataId having been removed from it (%s): a remove of an unknown dataId takes the last stored '
+                   'config of the group out of every listing' % [cfg.fmt_atom(a) for a in atoms], 'after a successful removal that left the set empty')
